@@ -37,6 +37,8 @@ KERNELS = {
     "_get_spans_for_2_fields_njit": {"owner": "C08", "mutated": [2]},        # returns a slice of the `spans` buffer it wrote
     "_get_spans_for_multi_fields_njit": {"owner": "C08", "mutated": [1]},
     "_get_spans_for_index_string_field": {"owner": "C08"},
+    "apply_spans_index_of_min_indexed": {"owner": "C08"},
+    "apply_spans_index_of_max_indexed": {"owner": "C08"},
     "apply_filter_to_index_values": {"owner": "C09"},
     "apply_indices_to_index_values": {"owner": "C09"},
     "map_valid": {"owner": "C04"},
@@ -115,6 +117,13 @@ def merge_safe(s0, s1):
     return not s1 or not s0 or (max(s1) >= max(s0) and all(a <= b for a, b in zip(s1, s1[1:])))
 
 
+def indexed_minmax_safe(sp, idx, vals):
+    """every subscript of apply_spans_index_of_{min,max}_indexed is in range: spans address rows, offsets address values"""
+    nrows = len(idx) - 1
+    return len(sp) >= 1 and all(0 <= a < b <= nrows for a, b in zip(sp, sp[1:])) and \
+        all(0 <= a <= len(vals) for a in idx)
+
+
 def _int_col(col):
     return col is not None and col.get("kind") == "numeric" and col.get("dtype", "int64") in ("int64", "int32") and \
         ints_only(col["data"])
@@ -146,6 +155,16 @@ def derive_c08(case):
                      fuel=len(s1) + 1, _from="C08")
     if case.get("op") != "apply" or case.get("level") != "ops":
         return None
+    if case["fn"] in ("index_of_min_indexed", "index_of_max_indexed") and case.get("col", {}).get("kind") == "indexed":
+        idx, vals = [0], []
+        for st in case["col"]["data"]:
+            vals.extend(st.encode("latin-1"))
+            idx.append(len(vals))
+        if not case["col"]["data"] and case["col"].get("noidx", True):
+            idx = []
+        sp = case["spans"]
+        return gcase("apply_spans_" + case["fn"], [arr(sp), arr(idx), arr(vals), NONE],
+                     unsafe=not indexed_minmax_safe(sp, idx, vals), _from="C08")
     k = C08_FN.get(case["fn"])
     if k not in KERNELS:
         return None
@@ -208,6 +227,31 @@ def random_c08(rng, n_cases):
             elif what == 2:
                 vals = vals[:rng.randrange(0, len(vals) + 1)]
             out.append(gcase(k, [arr(idx), arr(vals)], _from="random"))
+            continue
+        if k in ("apply_spans_index_of_min_indexed", "apply_spans_index_of_max_indexed"):
+            n = rng.choice([0, 1, 2, 3, rng.randrange(1, 12)])
+            strs = [[rng.choice([97, 98, 32]) for _ in range(rng.choice([0, 1, 1, 2, 3]))] for _ in range(n)]
+            strs = [strs[i - 1] if i and rng.random() < 0.3 else strs[i] for i in range(n)]
+            idx = [0]
+            for st in strs:
+                idx.append(idx[-1] + len(st))
+            vals = [c for st in strs for c in st]
+            what = rng.randrange(10)
+            if what == 0 and n >= 2:
+                j = rng.randrange(1, n)              # offsets that decrease somewhere (rows of negative "length")
+                idx[j] = rng.randrange(0, len(vals) + 1)
+            elif what == 1:
+                vals = vals[:rng.randrange(0, len(vals) + 1)]
+            what = rng.randrange(10)
+            if what < 7:
+                sp = [0] + [i for i in range(1, n) if rng.random() < rng.choice([0.1, 0.5, 0.9])] + ([n] if n else [])
+            elif what < 9:
+                sp = sorted(rng.randrange(0, n + 1) for _ in range(rng.randrange(0, 6)))
+            else:
+                sp = [rng.randrange(-2, n + 3) for _ in range(rng.randrange(0, 5))]
+            dest = NONE if rng.random() < 0.8 or not sp else arr([9] * (len(sp) - 1))
+            out.append(gcase(k, [arr(sp), arr(idx), arr(vals), dest], unsafe=not indexed_minmax_safe(sp, idx, vals),
+                             _from="random"))
             continue
         if k == "_get_spans_for_2_fields_by_spans":
             n = rng.randrange(0, 30)
